@@ -73,6 +73,10 @@ def run(ctx):
         r5(ctx, facts, cfg)
         r6(ctx, facts, cfg)
         r7_lookup(ctx, facts, cfg)
+        # the public entry point reaches the registry: Frontend::remove_logger(l) calls LoggerManager::remove_logger(l)
+        from rules.common import forwards
+        forwards(ctx, facts, cfg, "C17.R8", "quill::FrontendImpl::remove_logger", r"LoggerManager::remove_logger$",
+                 "FrontendImpl::remove_logger() hands its logger to LoggerManager::remove_logger() on every path", param_idx=0, floor=4)
         # the predicate a logger is erased on (R3): the backend's 'everything is drained' check, and what the unbounded queue calls empty
         from rules import c07, c02
         c07.r1d(ctx, facts, cfg, rule="C17.R3f")
@@ -139,6 +143,25 @@ def r1(ctx, facts, cfg):
             ctx.ob("C17.R1d", "%s::%s:%s@released" % (short(cls).split("::")[-1], m.base, lockf), ok,
                    "every path from %s.lock() to the end of the function passes %s.unlock() (a registry left locked blocks every later "
                    "create / get / remove and the backend's reload)" % (lockf, lockf), fn=m)
+            # R1e: ... and on the exceptional paths too: what runs between an explicit lock() and its unlock() cannot throw anything
+            # but an allocation failure (a sink or logger constructor can — a file that cannot be opened —, and so can user callbacks)
+            held = set(g.reach(locks, avoid_nodes=unlocks, include_src=False)) if unlocks else set()
+            risky = []
+            for c in m.walk():
+                if not (is_call(c) or c["k"] in ("CXXConstructExpr", "CXXTemporaryObjectExpr", "CXXNewExpr")) or not c.get("callee"):
+                    continue
+                if not any(p_ in held for p_ in g.positions(c)):
+                    continue
+                cal = c.get("callee") or ""
+                if c.get("nothrow") or is_call(c, r"Spinlock::(lock|unlock)$"):
+                    continue
+                if cal.startswith("std::") and not re.match(r"^std::(make_shared|make_unique|allocate_shared|function<.*>::operator\(\)|invoke)", cal):
+                    continue        # std containers / smart pointers: allocation failure only (not armed)
+                risky.append("%s@%s" % (short(cal).split("::")[-1], c["loc"].split(":", 1)[1]))
+            ctx.ob("C17.R1e", "%s::%s:%s@nothing-throws-while-held" % (short(cls).split("::")[-1], m.base, lockf), not risky,
+                   "between the explicit %s.lock() and unlock() nothing is called that can throw more than an allocation failure; code that "
+                   "constructs a sink or a logger, or calls back into user code, holds the lock through a guard object instead (%s)"
+                   % (lockf, ", ".join(risky) or "ok"), fn=m)
     ctx.floor("C17.R1d", "explicit lock() sites in the guarded classes", nl, 1)
     ctx.floor("C17.R1", "accesses to guarded registry fields", total, 19)
     # find-then-insert is one critical section
